@@ -1,4 +1,5 @@
 import PhyVerif.Model.C18
+import PhyVerif.Model.C18b
 import PhyVerif.Spec.C18
 import PhyVerif.Lemmas.C18
 /-!
@@ -47,6 +48,34 @@ theorem tsv_roundtrip (render : Cell → String) (parse : String → Cell)
     (∀ r ∈ rows, ∀ fc ∈ r, fc.1 ∈ file.1) ∧ file.1.Nodup :=
   Lemmas.tsv_roundtrip render parse hrt hne rows first hnodup file hw
 
+/-- TSV/CSV round trip relative to a cell domain `D`: the renderer/parser pair only has to
+round-trip (and render non-empty) the cells in `D`, and every cell of the table lies in `D`.
+`tsv_roundtrip` is the instance `D := fun _ => True`; no renderer that writes text verbatim
+satisfies that instance (`.text ""`, `.text "12"` vs `.int 12`), hence this form. -/
+theorem tsv_roundtrip_on (D : Cell → Prop) (render : Cell → String) (parse : String → Cell)
+    (hrt : ∀ c, D c → parse (render c) = c) (hne : ∀ c, D c → render c ≠ "")
+    (rows : List (List (String × Cell))) (first : Option String)
+    (hnodup : ∀ r ∈ rows, (r.map (·.1)).Nodup) (hD : ∀ r ∈ rows, ∀ fc ∈ r, D fc.2)
+    (file : List String × List (List String))
+    (hw : writeTsv render rows first = some file) :
+    readTsv parse file = expectedRows file.1 rows ∧
+    (∀ r ∈ rows, ∀ fc ∈ r, fc.1 ∈ file.1) ∧ file.1.Nodup :=
+  Lemmas.tsv_roundtrip_on D render parse hrt hne rows first hnodup hD file hw
+
+/-- The concrete (hypothesis-free) instance: `renderPy` models `str(value)` as written by
+`write_tsv`, `parsePy` models `_try_make_number` of `read_tsv` on strings that are not float
+literals (`int(s)` if it succeeds, else the string).  For tables whose cells are integers
+(negative ones included) or non-empty alphabetic labels such as "good", "mua" (`CellPy`; floats are
+outside this instance), the table written by `write_tsv` reads back as the same rows with the
+same cell types. -/
+theorem tsv_roundtrip_py (rows : List (List (String × Cell))) (first : Option String)
+    (hnodup : ∀ r ∈ rows, (r.map (·.1)).Nodup) (hD : ∀ r ∈ rows, ∀ fc ∈ r, CellPy fc.2)
+    (file : List String × List (List String))
+    (hw : writeTsv renderPy rows first = some file) :
+    readTsv parsePy file = expectedRows file.1 rows ∧
+    (∀ r ∈ rows, ∀ fc ∈ r, fc.1 ∈ file.1) ∧ file.1.Nodup :=
+  Lemmas.tsv_roundtrip_py rows first hnodup hD file hw
+
 /-- The requested first column comes first. -/
 theorem tsv_first_field_first (render : Cell → String) (rows : List (List (String × Cell))) (f : String)
     (hf : ∃ r ∈ rows, f ∈ r.map (·.1)) (file : List String × List (List String))
@@ -65,5 +94,13 @@ example : intifyKey (stringifyKey (.str "12")) = .int 12 := by decide     -- why
 example : writeTsv (fun c => match c with | .int i => toString i | .float t => s!"f{t}" | .text s => s)
     [[("id", .int 3), ("b", .text "x")], [("a", .float 1), ("id", .int 4)]] (some "id") =
     some (["id", "a", "b"], [["3", "", "x"], ["4", "f1", ""]]) := by decide
+-- the concrete `str` / `_try_make_number` pair: int column + label column, some fields absent
+example : (writeTsv renderPy
+      [[("cluster_id", .int 0), ("group", .text "good")], [("cluster_id", .int (-3))],
+       [("group", .text "mua"), ("cluster_id", .int 12)]] (some "cluster_id")).map (readTsv parsePy) =
+    some (expectedRows ["cluster_id", "group"]
+      [[("cluster_id", .int 0), ("group", .text "good")], [("cluster_id", .int (-3))],
+       [("group", .text "mua"), ("cluster_id", .int 12)]]) := by decide
+example : parsePy "12" = .int 12 ∧ parsePy "good" = .text "good" ∧ parsePy "-3" = .int (-3) := by decide
 
 end PhyVerif.C18
